@@ -28,6 +28,7 @@ use crate::{
 fn permissive<I: crate::helpers::TransportIdentity>() -> std::sync::Arc<dyn crate::helpers::RequestHandler<I>> {
     use crate::helpers::{RoleAssignment, query::{PrepareQuery, QueryConfig, QueryType}, routing::RouteId};
     make_owned_handler(|addr: crate::helpers::routing::Addr<I>, _| async move {
+        ORIGINS.lock().unwrap().push(format!("{:?}", addr.origin));
         Ok(match addr.route {
             RouteId::QueryStatus => HelperResponse::from(crate::query::QueryStatus::Running),
             RouteId::ReceiveQuery => HelperResponse::from(PrepareQuery {
@@ -41,6 +42,9 @@ fn permissive<I: crate::helpers::TransportIdentity>() -> std::sync::Arc<dyn crat
         })
     })
 }
+
+/// the peer identity every request reached the handler with (in order)
+static ORIGINS: std::sync::Mutex<Vec<String>> = std::sync::Mutex::new(Vec::new());
 
 const METHODS: [Method; 4] = [Method::GET, Method::POST, Method::PUT, Method::DELETE];
 
@@ -276,6 +280,27 @@ mod live {
         Client::builder(TokioExecutor::new()).pool_timer(TokioTimer::new()).build(https)
     }
 
+    /// a TLS client that presents the test certificate number `cert` (0..3: helpers A, B, C; 3..6: the
+    /// certificates the fixtures use for a second shard - not known to an MPC server of one shard)
+    pub fn https_client_with_cert(cert: usize) -> Client<HttpsConnector<HttpConnector>, axum::body::Body> {
+        use crate::sharding::{ShardIndex, ShardedHelperIdentity};
+        let id = ShardedHelperIdentity::new(crate::helpers::HelperIdentity::make_three()[cert % 3], ShardIndex::from((cert / 3) as u32));
+        let (mut cert_pem, mut key_pem) = crate::net::test::get_test_certificate_and_key(id);
+        let certs: Vec<CertificateDer<'static>> = rustls_pemfile::certs(&mut cert_pem).flatten().collect();
+        let key = rustls_pemfile::private_key(&mut key_pem).unwrap().unwrap();
+        let config = rustls::ClientConfig::builder_with_provider(Arc::clone(&crate::net::CRYPTO_PROVIDER))
+            .with_safe_default_protocol_versions()
+            .unwrap()
+            .dangerous()
+            .with_custom_certificate_verifier(Arc::new(NoVerify))
+            .with_client_auth_cert(certs, key)
+            .unwrap();
+        let mut http = HttpConnector::new();
+        http.enforce_http(false);
+        let https = HttpsConnector::<HttpConnector>::from((http, Arc::new(config)));
+        Client::builder(TokioExecutor::new()).pool_timer(TokioTimer::new()).build(https)
+    }
+
     pub fn http_client() -> Client<HttpConnector, axum::body::Body> {
         Client::builder(TokioExecutor::new()).pool_timer(TokioTimer::new()).build(HttpConnector::new())
     }
@@ -334,6 +359,91 @@ async fn live_matrix(r: &mut Report) {
                             &format!("{scheme} server ({listener}), no client certificate, identity header {header:?}: {method} {path} answered {st}"),
                             json!({"part":"auth","https":https,"listener":listener,"route":route,"header":header}),
                         );
+                    }
+                }
+            }
+        }
+        // ---- client certificates (TLS only): the certificate of helper A, B or C is an identity, a
+        // certificate the server does not know is none, and an identity header changes nothing ----------
+        if https {
+            for cert in 0..6usize {
+                let known = cert < 3;
+                let mut statuses: Vec<(Option<&str>, &str, StatusCode)> = Vec::new();
+                for header in [None, Some("A"), Some("C")] {
+                    for (route, method, path) in [("step", Method::POST, format!("/query/{qid}/step/gate-cert{cert}-{}", header.unwrap_or("none"))), ("prepare", Method::POST, format!("/query/{qid}")), ("echo", Method::GET, "/echo".to_string())] {
+                        let uri = format!("https://localhost:{}{path}?query_type=test-multiply&field_type=Fp31&size=1", server.addr.port());
+                        let mut b = hyper::Request::builder().method(method.clone()).uri(uri).header("content-type", "application/json");
+                        if let Some(hv) = header {
+                            b = b.header("x-unverified-helper-identity", hv);
+                        }
+                        let body = if route == "step" { vec![cert as u8 + 1, 7] } else { Vec::new() };
+                        let req = b.body(Body::from(body)).unwrap();
+                        let st = tokio::time::timeout(std::time::Duration::from_secs(20), live::https_client_with_cert(cert).request(req)).await.map(|x| x.map(|x| x.status()));
+                        if known && route == "step" && matches!(st, Ok(Ok(x)) if x == StatusCode::OK) {
+                            // the records must have been filed under the identity of the certificate, whatever
+                            // the header claims: they can be received from that helper (and only from it)
+                            use futures::StreamExt;
+                            let gate = crate::protocol::Gate::from(format!("gate-cert{cert}-{}", header.unwrap_or("none")).as_str());
+                            let want_from = HelperIdentity::make_three()[cert];
+                            let mut got_from = None;
+                            for from in HelperIdentity::make_three() {
+                                let mut s = server.transport.receive(from, &(QueryId, gate.clone()));
+                                if let Ok(Some(Ok(bytes))) = tokio::time::timeout(std::time::Duration::from_millis(if from == want_from { 20_000 } else { 150 }), s.next()).await {
+                                    if bytes.as_ref() == [cert as u8 + 1, 7] {
+                                        got_from = Some(from);
+                                    }
+                                }
+                            }
+                            r.inc("identity_observations");
+                            if got_from != Some(want_from) {
+                                r.violation(
+                                    "auth:certificate-identity-not-used",
+                                    &format!("client certificate of helper {cert}, identity header {header:?}: the step records were filed under {got_from:?}, expected {want_from:?}"),
+                                    json!({"part":"auth","cert":cert,"route":route,"header":header}),
+                                );
+                            }
+                        }
+                        r.inc("evaluations");
+                        r.inc("distinct_nontrivial");
+                        r.inc("live_requests");
+                        r.inc("live_cert_requests");
+                        let st = match st {
+                            Ok(Ok(s)) => s,
+                            other => {
+                                // a server may refuse the handshake of an unknown certificate altogether: that is a refusal too
+                                if known {
+                                    r.machinery(&format!("live request with certificate {cert} {route} failed: {other:?}"));
+                                } else {
+                                    r.set("live_outcomes", format!("https:cert{cert}:{route}:header={header:?}:connection-refused"));
+                                }
+                                continue;
+                            }
+                        };
+                        r.set("live_outcomes", format!("https:cert{cert}:{route}:header={header:?}:{st}"));
+                        statuses.push((header, route, st));
+                        let peer_route = route != "echo";
+                        let bad = if !peer_route {
+                            st == StatusCode::UNAUTHORIZED
+                        } else if known {
+                            st == StatusCode::UNAUTHORIZED
+                        } else {
+                            st != StatusCode::UNAUTHORIZED
+                        };
+                        if bad {
+                            let key = if known { "auth:known-certificate-refused" } else { "auth:unknown-certificate-accepted" };
+                            r.violation(
+                                &format!("{key}:{route}"),
+                                &format!("TLS server, client certificate {cert} ({}), identity header {header:?}: {method} {path} answered {st}", if known { "a helper of this network" } else { "not a helper of this network" }),
+                                json!({"part":"auth","cert":cert,"route":route,"header":header}),
+                            );
+                        }
+                    }
+                }
+                // the header has no effect on top of a certificate
+                for route in ["step", "prepare", "echo"] {
+                    let per: Vec<StatusCode> = statuses.iter().filter(|x| x.1 == route).map(|x| x.2).collect();
+                    if per.windows(2).any(|w| w[0] != w[1]) {
+                        r.violation(&format!("auth:tls-honours-identity-header:cert:{route}"), &format!("client certificate {cert}: the answers to {route} differ with the identity header: {per:?}"), json!({"part":"auth","cert":cert,"route":route}));
                     }
                 }
             }
